@@ -31,6 +31,9 @@ clauses
   tzero-energy        Temp = 0: Ek+Ep never exceeds its running minimum by more than twice the NVE fluctuation amplitude
                       of the companion run + 1e3 eps, and ends below its start
   calls               thermostat calls per integrator step: exactly 2 (first and last event of the step) iff damp is set
+  comrem-Ek           thermostatted engines (Langevin, damped XL / KSA, surface hopping) run with remove_com=('linear'|'angular', n): every
+                      periodic _zero_com call leaves each molecule's kinetic energy unchanged (1e-12; the drivers keep n_dof = 3N, so
+                      the removed COM / rotational energy must be given back) -- and the meanT clauses hold with stride 1..10
   calls-resumed       the same on the engine REBUILT by run_from_checkpoint after a crash right after a checkpoint (class-level
                       wrappers; Langevin, XL / KSA damped and undamped, surface hopping damped and undamped), plus the fd-*
                       identity on its live coefficients and resume-parameters (damp, dt, Temp restored exactly)
@@ -52,7 +55,7 @@ ASSUMPTIONS = ["float64 CPU", "statistical clauses: per-test alpha = 1e-12 (exac
                "kinetic temperature of the Bussi-Parrinello scheme is unbiased at step ends for harmonic modes; anharmonic / "
                "initial-transient bias is covered by the 1 % allowance (burn-in >= 8 tau)"]
 REQUIRED_MONITORS = ["identity_atoms", "identity_engines", "identity_reuse", "meanT_reused_driver", "stat_tests", "thermostat_updates", "meanT_samples", "tauinf_pairs",
-                     "tzero_hook_calls", "call_steps_damped", "call_steps_undamped", "resumed_steps_damped", "resumed_steps_undamped"]
+                     "tzero_hook_calls", "call_steps_damped", "call_steps_undamped", "resumed_steps_damped", "resumed_steps_undamped", "comrem_ke_events"]
 CASE_TIMEOUT = 1500.0
 BUDGET_S = {"quick": 200, "thorough": 1700}
 ALPHA = 1e-12
@@ -101,7 +104,13 @@ def gen_cases(tier, seed):
     if q:
         cases.append({"kind": "meanT", "nH2O": 96, "nH2": 96, "dt": 0.2, "tau": 1.0, "T": 300.0, "burn": 50, "steps": 100,
                       "stage1": {"T": 50.0, "steps": 6}, "seed": s(), "geom_seed": s()})
+        for rc in (["linear", 1], ["angular", 2]):
+            cases.append({"kind": "meanT", "nH2O": 48, "nH2": 48, "dt": 0.2, "tau": 1.0, "T": 300.0, "burn": 50, "steps": 100,
+                          "remove_com": rc, "seed": s(), "geom_seed": s()})
     else:
+        for rc, dt, tau in ((["linear", 1], 0.2, 1.0), (["angular", 1], 0.2, 1.0), (["linear", 5], 0.1, 2.0), (["angular", 10], 0.2, 0.5)):
+            cases.append({"kind": "meanT", "nH2O": 128, "nH2": 128, "dt": dt, "tau": tau, "T": 300.0, "burn": int(round(10 * tau / dt)),
+                          "steps": 400, "remove_com": rc, "seed": s(), "geom_seed": s()})
         for dt, tau, T in ((0.1, 2.0, 300.0), (0.2, 1.0, 300.0), (0.1, 0.5, 600.0), (0.2, 1.0, 150.0)):
             cases.append({"kind": "meanT", "nH2O": 128, "nH2": 128, "dt": dt, "tau": tau, "T": T, "burn": int(round(10 * tau / dt)),
                           "steps": 600, "seed": s(), "geom_seed": s()})
@@ -119,6 +128,9 @@ def gen_cases(tier, seed):
         for damp in ((None, 7.0) if eng not in ("basic", "langevin") else ((None,) if eng == "basic" else (7.0,))):
             cases.append({"kind": "calls", "engine": eng, "damp": damp, "steps": 3, "mols": ["H2O", "CH2O"] if eng != "sh" else ["CH2O"],
                           "seed": s(), "geom_seed": s()})
+    for eng, rc in (("langevin", ["angular", 1]), ("xl", ["linear", 1]), ("ksa", ["angular", 1]), ("sh", ["linear", 2]), ("langevin", ["linear", 3])):
+        cases.append({"kind": "calls", "engine": eng, "damp": 7.0, "steps": 4, "remove_com": rc,
+                      "mols": ["H2O", "CH2O"] if eng != "sh" else ["CH2O"], "seed": s(), "geom_seed": s()})
     for eng, damps in (("langevin", (6.0,)), ("xl", (6.0, None)), ("ksa", (9.0, None)), ("sh", (6.0, None))):
         for damp in damps:
             cases.append({"kind": "resumed", "engine": eng, "damp": damp, "steps": 5, "ckpt": 2, "T": 250.0, "dt": 0.3,
@@ -178,6 +190,46 @@ def _batch(names, g, sigma=0.03):
         mols.append((Z, X))
     S, C = gen.pad_batch(mols)
     return S, C, [z for z, _ in mols]
+
+
+def _comrem_hook(mol, mdo, store, on_after=None):
+    """instance-level wrapper on _zero_com for thermostatted runs with periodic COM removal: kinetic energy of every molecule
+    before / after each call (independent numpy arithmetic) and how often the removal really had kinetic energy to remove."""
+    mass = mol.mass.detach().cpu().numpy()[..., 0]
+    real = mol.species.detach().cpu().numpy() > 0
+    orig = mdo._zero_com
+    store.update({"calls": 0, "ke_events": 0, "worst": 0.0, "worst_detail": None})
+
+    def zero_com(molecule, *a, **k):
+        v = molecule.velocities.detach().cpu().numpy()
+        kb = (mass[..., None] * v * v).sum(-1) * real
+        P = (mass[..., None] * v * real[..., None]).sum(1)
+        kcom = (P * P).sum(-1) / (2.0 * (mass * real).sum(1))
+        r = orig(molecule, *a, **k)
+        v2 = molecule.velocities.detach().cpu().numpy()
+        ka = (mass[..., None] * v2 * v2).sum(-1) * real
+        Kb, Ka = 0.5 * kb.sum(1), 0.5 * ka.sum(1)
+        with np.errstate(all="ignore"):
+            rel = np.where(Kb > 0, np.abs(Ka / Kb - 1.0), np.where(Ka == Kb, 0.0, np.inf))
+        w = float(np.max(rel))  # np.max propagates NaN
+        store["calls"] += 1
+        store["ke_events"] += int((kcom > 1e-12 * np.maximum(Kb, 1e-300)).sum())
+        if not (w <= store["worst"]):
+            i = int(np.argmax(np.where(np.isnan(rel), np.inf, rel)))
+            store["worst"] = w
+            store["worst_detail"] = {"mol": i, "Ek_before_amu": float(Kb[i]), "Ek_after_amu": float(Ka[i]), "Ek_com_before_amu": float(kcom[i]),
+                                     "args": [repr(x) for x in a], "kwargs": {kk: repr(vv) for kk, vv in k.items()}}
+        if on_after is not None:
+            on_after(ka)
+        return r
+
+    mdo._zero_com = zero_com
+
+
+def _judge_comrem(acc, store, tag):
+    if store.get("calls"):
+        acc.upd("comrem-Ek", store["worst"], 1e-12, dict(store["worst_detail"] or {}, run=tag, calls=store["calls"]))
+        acc.mon["comrem_ke_events"] += store["ke_events"]
 
 
 def _kb_live():
@@ -403,14 +455,25 @@ def _meanT(case):
         pre_run.mass = mass
         orig = mdo._do_integrator_step
 
-        def step(i, molecule, lp, **kw):
-            r = orig(i, molecule, lp, **kw)
+        def step(i, molecule, *a, **kw):
+            r = orig(i, molecule, *a, **kw)
             v = molecule.velocities.detach().cpu().numpy()
             series.append((mass[..., None] * v * v).sum(-1))
+            fresh_row[0] = True
             return r
 
         mdo._do_integrator_step = step
 
+        def after_removal(ka):  # the state the run reports for this step is the one AFTER the periodic COM removal
+            if fresh_row[0] and series:
+                series[-1] = ka
+                fresh_row[0] = False
+
+        if rc is not None:
+            _comrem_hook(mol, mdo, comrem, on_after=after_removal)
+
+    rc = tuple(case["remove_com"]) if case.get("remove_com") else None
+    comrem, fresh_row = {}, [False]
     stage1 = case.get("stage1")  # {"T": K, "steps": n}: the SAME driver object is first run at another target temperature
     rec = {"h5": {}}
     try:
@@ -422,7 +485,7 @@ def _meanT(case):
                 mdo.run(mol, steps=int(stage1["steps"]), seed=case["seed"])
                 del series[:]
                 mdo.Temp = float(T)  # staged heating: same driver, same molecule, new target
-            mdo.run(mol, steps=int(case["steps"]), seed=case["seed"] + 1)
+            mdo.run(mol, steps=int(case["steps"]), seed=case["seed"] + 1, remove_com=rc)
             for k in molid:
                 rec["h5"][k] = md.read_h5("%s/m.%d.h5" % (d, k))
     except Exception as exc:
@@ -447,12 +510,18 @@ def _meanT(case):
         Tm = float(W[:, sel].sum() / nW / (ndof * md.REF_KB_AMU))
         sigma = math.sqrt(2.0 / (ndof * neff))
         tol = 6.0 * sigma + 0.01
-        acc.upd("meanT" if name == "all" else "meanT-" + name, abs(Tm / T - 1.0), tol,
-                {"group": name, "mean_T": Tm, "target": T, "sigma_rel": sigma, "dt": dt, "tau": tau, "n_dof": ndof})
         obs[name] = {"mean_T_over_target": Tm / T, "tolerance": tol}
+        if rc is not None and name != "all":
+            # with periodic COM removal the documented design (n_dof = 3N, removed energy given back by a uniform rescale) fixes the
+            # TOTAL kinetic temperature only; per-element temperatures are recorded, not judged (O 52 K / H 428 K at stride 1)
+            continue
+        acc.upd("meanT" if name == "all" else "meanT-" + name, abs(Tm / T - 1.0), tol,
+                {"group": name, "mean_T": Tm, "target": T, "sigma_rel": sigma, "dt": dt, "tau": tau, "n_dof": ndof, "remove_com": rc})
         sums[name] = [float(W[:, sel].sum() / (md.REF_KB_AMU * T)), float(ndof * nW), float(ndof * neff)]
     acc.mon["meanT_samples"] += int(nW * len(S))
-    acc.cells.append("meanT/dt%g/tau%g/T%g%s" % (dt, tau, T, "/after-stage-at-%gK" % stage1["T"] if stage1 else ""))
+    _judge_comrem(acc, comrem, "meanT")
+    acc.cells.append("meanT/dt%g/tau%g/T%g%s%s" % (dt, tau, T, "/after-stage-at-%gK" % stage1["T"] if stage1 else "",
+                                                 "/rc-%s%d" % (rc[0], rc[1]) if rc else ""))
     if stage1:
         acc.mon["meanT_reused_driver"] += 1
     obs["pool"] = sums
@@ -560,16 +629,21 @@ def _calls(case):
     sett, xl = _engine_args(eng, "AM1")
     events = []
 
+    rc = tuple(case["remove_com"]) if case.get("remove_com") else None
+    comrem = {}
+
     def pre_run(mol, mdo):
         o_step, o_th, o_es = mdo._do_integrator_step, mdo._apply_langevin_thermostat if hasattr(mdo, "_apply_langevin_thermostat") else None, mdo.esdriver.forward
+        if rc is not None:
+            _comrem_hook(mol, mdo, comrem)
 
-        def step(i, molecule, lp, **kw):
+        def step(i, molecule, *a, **kw):
             events.append(("S", i))
-            return o_step(i, molecule, lp, **kw)
+            return o_step(i, molecule, *a, **kw)
 
-        def thermo(molecule):
+        def thermo(molecule, *a, **kw):
             events.append(("T", None))
-            return o_th(molecule)
+            return o_th(molecule, *a, **kw)
 
         def es(*a, **k):
             events.append(("E", None))
@@ -582,7 +656,7 @@ def _calls(case):
 
     with env.Scratch("c12") as d:
         rec = md.run_md(eng, S, C, sett, 0.2, 300.0, case["steps"], d + "/c", molid=[0], damp=damp, xl=xl, seed=case["seed"],
-                        pre_run=pre_run)
+                        pre_run=pre_run, remove_com=rc)
     if rec["error"]:
         return {"inconclusive": "%s run raised: %s" % (eng, rec["error"][:300])}
     # split the event log per integrator step
@@ -601,7 +675,8 @@ def _calls(case):
         acc.mon["call_steps_damped" if want else "call_steps_undamped"] += 1
     if len(steps) != case["steps"]:
         acc.flag("calls", True, {"engine": eng, "steps_seen": len(steps), "planned": case["steps"]})
-    acc.cells.append("calls/%s/%s" % (eng, "damped" if want else "undamped"))
+    _judge_comrem(acc, comrem, "calls/%s" % eng)
+    acc.cells.append("calls/%s/%s%s" % (eng, "damped" if want else "undamped", "/rc-%s%d" % (rc[0], rc[1]) if rc else ""))
     return acc.result(len(steps) > 0, {"engine": eng, "damp": damp, "per_step_events": ["".join(e) for e in steps]})
 
 
